@@ -26,8 +26,8 @@ import numpy as np
 from harness import common
 from harness.common import engine_run, coq_crosscheck
 
-TARGETS = ["theories/Props/C07.vo"]
-GENEQ = {}
+TARGETS = ["theories/Props/C07.vo", "theories/Proofs/GenEq_Crop.vo"]
+GENEQ = {"theories/Proofs/GenEq_Crop.vo": "Crop"}
 ALLOWED_AXIOMS = [
     "Axioms",   # not an axiom: the header line "Axioms:" of Print Assumptions, which the driver's line parser reads as a name
                 # (`Axioms` is a reserved word of Coq, no constant can have that name); axiom_audit() below re-parses robustly
